@@ -122,6 +122,7 @@ func CheckC06(c *Ctx) {
 	run.Floor("base_strategies", 32)
 	c.buyAndHold()
 	c.defaultsWiring("defaults-wiring", "strategy")
+	c.constructorParameters("defaults-wiring", "strategy")
 	run.Floor("default_constant_uses", 20)
 	for k, v := range intrinsicOffsets {
 		if strings.HasPrefix(k, "strategy/") {
